@@ -4,7 +4,7 @@
 use crate::case::{FaultSite, How, Op, Terminal};
 use crate::elem::{Elem, ItemRec};
 use crate::history::{HasRec, OpRec, Res, Tag, TermRes};
-use crate::hooks::{self, INJECTED, RUNAWAY};
+use crate::hooks::{self, INJECTED, RUNAWAY, USER_PANIC};
 use orx_concurrent_iter::iter::atomic_iter::AtomicIter;
 use orx_concurrent_iter::{ConcurrentIter, HasMore};
 use std::panic::{catch_unwind, AssertUnwindSafe};
@@ -381,6 +381,51 @@ where
                         }
                     }
                 },
+                Op::UnwindPull { k } => {
+                    // a drop guard that keeps pulling while its thread unwinds from an unrelated panic
+                    struct PullOnDrop<'x, J: ConcurrentIter>
+                    where
+                        J::Item: Elem,
+                    {
+                        it: &'x J,
+                        k: usize,
+                        tid: usize,
+                        op_idx: usize,
+                        stash: &'x mut Vec<J::Item>,
+                    }
+                    impl<'x, J: ConcurrentIter> Drop for PullOnDrop<'x, J>
+                    where
+                        J::Item: Elem,
+                    {
+                        fn drop(&mut self) {
+                            for _ in 0..self.k {
+                                hooks::op_begin(self.tid);
+                                let res = match self.it.next() {
+                                    Some(v) => {
+                                        let r = v.rec();
+                                        self.stash.push(v);
+                                        Res::One { idx: None, item: r }
+                                    }
+                                    None => Res::End,
+                                };
+                                let (c, r) = hooks::op_end(self.tid);
+                                let end = matches!(res, Res::End);
+                                rec(self.tid, self.op_idx, Tag::Next, c, r, res);
+                                if end {
+                                    break;
+                                }
+                            }
+                        }
+                    }
+                    let _guard = PullOnDrop {
+                        it,
+                        k,
+                        tid,
+                        op_idx,
+                        stash: &mut *stash,
+                    };
+                    std::panic::panic_any(USER_PANIC);
+                }
                 // ---------------- safe low-level calls ----------------
                 Op::LlGet { idx } => {
                     timed!(Tag::LowLevel, match AtomicIter::get(it, idx) {
@@ -447,6 +492,10 @@ where
             }
             hooks::panic_end();
             let (c, r) = hooks::op_end(tid);
+            if matches!(p.downcast_ref::<&str>(), Some(s) if *s == USER_PANIC) {
+                // the expected end of an UnwindPull operation: the thread ends like a panicking scoped thread
+                return false;
+            }
             let msg = match p.downcast_ref::<&str>() {
                 Some(s) if *s == INJECTED => INJECTED.to_string(),
                 Some(s) if *s == RUNAWAY => RUNAWAY.to_string(),
@@ -462,7 +511,7 @@ where
                 Op::Len => Tag::Len,
                 Op::HasMore => Tag::HasMore,
                 Op::Skip => Tag::Skip,
-                Op::Drain(_) => Tag::CompositeDone,
+                Op::Drain(_) | Op::UnwindPull { .. } => Tag::CompositeDone,
                 _ => Tag::LowLevel,
             };
             rec(tid, op_idx, tag, c, r, Res::Panicked(msg));
